@@ -19,9 +19,16 @@ def main():
     sh("git checkout -- .", cwd=wt)
     rc, out = sh(f"/venv/bin/python {demo} {wt}", cwd=wt); res["demo_clean_pass"] = rc == 0
     rc, out = sh(f"git apply --check {patch}", cwd=wt); res["applies"] = rc == 0
-    if rc != 0:
-        print(json.dumps(res)); print(out[-500:]); return 2
-    sh(f"git apply {patch}", cwd=wt)
+    if rc == 0:
+        sh(f"git apply {patch}", cwd=wt)
+    else:
+        # the repository moved on since the change was written: apply with fuzz and keep the rebased patch
+        rc2, out2 = sh(f"patch -p1 --fuzz=3 --no-backup-if-mismatch < {patch}", cwd=wt)
+        res["applies"] = rc2 == 0; res["rebased_with_fuzz"] = True
+        if rc2 != 0:
+            sh("git checkout -- .", cwd=wt); print(json.dumps(res)); print(out2[-500:]); return 2
+        _, diff = sh("git diff", cwd=wt)
+        open(patch, "w").write(diff)
     try:
         rc, out = sh("/venv/bin/python -m pytest -q -p no:cacheprovider 2>&1 | tail -1", cwd=wt); res["tests"] = out.strip()[-60:]
         rc, out = sh(f"/venv/bin/python {demo} {wt}", cwd=wt); res["demo_mutant_fail"] = rc != 0; res["demo_out"] = out.strip()[-300:]
